@@ -44,18 +44,109 @@ def status_file_rows(c):
     return rows
 
 
+def burst_and_callers_rows(c):
+    """(a) two callers of one user and one executable whose command lines are long and differ only near the end: each
+    caller's denials are published under ITS command line; (b) hundreds of denials at the same moment (more than the
+    status actor's mailbox holds): every one of them is in the status file afterwards."""
+    import shutil
+    thorough = c.tier == "thorough"
+    name = "c11_burst"
+    d0 = os.path.join(util.RUNDIR, name)
+    sdir = os.path.join(d0, "status")
+    sf = os.path.join(sdir, "status.json")
+    script = os.path.join(d0, "w" * 60, "x" * 60, "extension-handler-with-a-long-name.sh")
+    doc = {"defaultAccess": "deny", "mode": "enforce", "id": "small", "rules": {"privileges": [{"name": "p", "path": "/never"}],
+                                                                                "roles": [], "identities": [], "roleAssignments": []}}
+    sh = shutil.which("sh")
+    steps = [{"op": "set_rules", "ep": "imds", "doc": doc}, {"op": "write_file", "path": script, "text": "sleep 40\n"}]
+    want = {"worker-a": 3, "worker-b": 2}
+    for w in want:
+        steps.append({"op": "spawn", "name": w, "exe": sh, "args": [script, "--instance-name", w]})
+    steps.append({"op": "sleep", "ms": 200})
+    for w, k in want.items():
+        for i in range(k):
+            cn = "%s_%d" % (w, i)
+            steps += [{"op": "connect", "conn": cn, "attr": {"uid": 0, "admin": 1, "dip": "169.254.169.254", "dport": 80, "helper": w}},
+                      {"op": "request", "conn": cn, "id": cn, "method": "GET", "target": "/metadata/instance", "headers": [["Host", "h"]]},
+                      {"op": "close", "conn": cn}]
+    steps += [{"op": "sleep", "ms": 100}, {"op": "snapshot", "tag": "callers", "status_file": sf}]
+    nb = 1000 if not thorough else 2500
+    branches = []
+    for b in range(nb):
+        # all connections are established first (accepted, attributed, upstream connected); then every client fires at once
+        cn = "b%d" % b
+        steps.append({"op": "connect", "conn": cn, "attr": {"uid": 1, "admin": 0, "dip": "169.254.169.254", "dport": 80}})
+        branches.append([{"op": "request", "conn": cn, "id": cn, "method": "GET", "target": "/metadata/burst?b=%d" % (b % 5), "headers": [["Host", "h"]],
+                          "timeout_ms": 30000},
+                         {"op": "close", "conn": cn}])
+    steps += [{"op": "wait_audit_settled", "tag": "burst"}, {"op": "sleep", "ms": 300},
+              {"op": "parallel", "branches": branches}, {"op": "sleep", "ms": 300}, {"op": "snapshot", "tag": "burst", "status_file": sf}]
+    ev, d, _ = rig.run_rig({"steps": steps, "status_task": {"interval_ms": 5, "dir": sdir}, "drain_ms": 200}, name, timeout=900)
+    snaps = {e["tag"]: e for e in ev if e["e"] == "Failed" and e.get("source") == "status.json"}
+    resp = {e["id"]: e for e in ev if e["e"] == "Response"}
+    if "callers" not in snaps or "burst" not in snaps or not snaps["burst"].get("found"):
+        raise util.ToolError("burst scenario: status.json was not published")
+    rows = []
+    entries = snaps["callers"].get("failedAuth") or []
+    seen_cmd = [x.get("processCmdLine", "") for x in entries]
+    if not any("--instance-name" in x for x in seen_cmd):
+        raise util.ToolError("burst scenario: the helpers' command lines were not resolved (%s)" % seen_cmd[:3])
+    for w, k in want.items():
+        den = sum(1 for i in range(k) if resp.get("%s_%d" % (w, i), {}).get("status") == 403)
+        cnt = sum(x.get("count", 0) for x in entries if (x.get("processCmdLine") or "").endswith(w))
+        rows.append({"e": "pub", "id": "caller-" + w, "denials": den, "inFile": cnt})
+    before = sum(x.get("count", 0) for x in entries)
+    den = sum(1 for b in range(nb) if resp.get("b%d" % b, {}).get("status") == 403)
+    if den < nb * 0.9:
+        raise util.ToolError("burst scenario: only %d of %d simultaneous requests were answered 403" % (den, nb))
+    after = sum(x.get("count", 0) for x in (snaps["burst"].get("failedAuth") or []))
+    rows.append({"e": "pub", "id": "burst", "denials": den, "inFile": after - before})
+    c.extra["simultaneous_denials"] = den
+    c.extra["long_command_line_prefix"] = len(os.path.commonprefix([sh + " " + script + " --instance-name worker-a",
+                                                                     sh + " " + script + " --instance-name worker-b"]))
+    return rows
+
+
 def run(c):
     proxylib.decide(c, "C11", relevant=lambda row: row['rules'] in ('audit','enforce','disabled'))
     rows = status_file_rows(c)
     c.extra["status_file_publications_checked"] = len(rows)
+    brows = burst_and_callers_rows(c)
+    # the same burst at the recording point itself, deterministically: n tasks record a denial while the status actor cannot
+    # run (single-threaded runtime) -- more than its mailbox holds; every recording the caller was told succeeded is counted
+    from checks import c13
+    sb = c13.robust_table([{"kind": "status_burst", "n": 250 if c.tier != "thorough" else 2000}], "c11_sburst")[0]
+    if "failedRecorded" not in sb:
+        raise util.ToolError("status_burst driver: %s" % sb)
+    brows.append({"e": "pub", "id": "recording-burst", "denials": sb["n"], "inFile": sb["failedRecorded"]})
+    c.extra["recording_burst"] = sb
+    ok, why, res = validate_trace(c, "ProxyTrace", proxylib.write_cfg("C11", ["P_C11_PublishedInStatusFile"], "pubb"), brows, "c11_pubb",
+                                  count=1, timeout=300)
+    if not ok:
+        bad = [r for r in brows if r["inFile"] != r["denials"]]
+        for attempt in range(3):                    # only a verdict that reproduces is reported (the overflow is a race)
+            brows2 = burst_and_callers_rows(c)
+            sb2 = c13.robust_table([{"kind": "status_burst", "n": sb["n"]}], "c11_sburst")[0]
+            brows2.append({"e": "pub", "id": "recording-burst", "denials": sb2.get("n", 0), "inFile": sb2.get("failedRecorded", -1)})
+            bad2 = [r for r in brows2 if r["inFile"] != r["denials"]]
+            if bad2 and not {r["id"] for r in bad2}.isdisjoint({r["id"] for r in bad}):
+                break
+        else:
+            raise util.ToolError("a miscounted publication (%s) did not reproduce in three re-executions; not believed" % bad)
+        kind = "burst" if any(r["id"] == "burst" for r in bad2) else "per-caller"
+        c.violation("denials are not published once each under their caller: %s" % bad2,
+                    {"broken": "P_C11_PublishedInStatusFile", "scenario": kind}, {"rows": brows2})
     ok, why, res = validate_trace(c, "ProxyTrace", proxylib.write_cfg("C11", ["P_C11_PublishedInStatusFile"], "pub"), rows, "c11_pub",
                                   count=1, timeout=300)
     if not ok:
         bad = next((r for r in rows if r["inFile"] != r["denials"]), {})
-        # re-execute once: only a verdict that reproduces is reported
-        rows2 = status_file_rows(c)
-        if all(r["inFile"] == r["denials"] for r in rows2):
-            raise util.ToolError("a stale status file (%s) did not reproduce; not believed" % bad)
+        # only a verdict that reproduces is reported (the window is a race: up to three re-executions)
+        for attempt in range(3):
+            rows2 = status_file_rows(c)
+            if not all(r["inFile"] == r["denials"] for r in rows2):
+                break
+        else:
+            raise util.ToolError("a stale status file (%s) did not reproduce in three re-executions; not believed" % bad)
         c.violation("a denial that was already answered is missing from the status file published afterwards: %s" % bad,
                     {"broken": "P_C11_PublishedInStatusFile"}, {"first": bad})
 
